@@ -43,7 +43,9 @@ def main():
         r = seeded.get(sid, {})
         outcome = ', '.join(f'{k}: {v}' for k, v in sorted(r.items())) or 'not run'
         lines.append(f'| `{sid}` | {meta["property"]} | {meta["needs_to_manifest"]} | {outcome} |')
-    refac = load('REFACTORINGS.json')
+    refac = dict(load('REFACTORINGS.json'))
+    for k, v in load('REFACTORINGS2.json').items():   # re-run after the round-7 devices were added
+        refac.setdefault(k, {}).update(v)
     lines += ['', '## Behaviour-preserving refactorings (`refactorings/<id>/`, negative controls)', '',
               'Written by fresh sub-agents asked for a substantial restructuring with identical observable behaviour',
               '(each convinced itself with its own differential test against the pristine tree; pinned suite 301/301).',
@@ -59,8 +61,9 @@ def main():
         lines.append(f'| `{rid}` | {meta["refactor"]} | {meta["files"]} | {green} of {len(r)} green'
                      f'{(" - " + other + " **UNEXPECTED**") if other else ""} |')
     var = dict(load('VARIATIONS.json'))
-    for k, v in load('VARIATIONS2.json').items():
-        var.setdefault(k, {}).update(v)
+    for name in ('VARIATIONS2.json', 'VARIATIONS3.json', 'VARIATIONS4.json'):   # later files: re-runs with newer checks
+        for k, v in load(name).items():
+            var.setdefault(k, {}).update(v)
     lines += ['', '## Variations of behaviour the statements leave open (`variations/<id>/`, over-reach probes)', '',
               'Written by fresh sub-agents asked to change observable behaviour near one property in a way its statement',
               'does not constrain (pinned suite 301/301, a script showing the difference, a clause-by-clause argument).',
